@@ -122,7 +122,19 @@ def get_generic_name(typ: Type, short: bool = False) -> str:
 
 
 def get_args(typ: Optional[Type]) -> tuple[Type, ...]:
-    return getattr(typ, "__args__", ())
+    args = getattr(typ, "__args__", ())
+    if any(getattr(arg, "__unpacked__", False) for arg in args):
+        # PEP 646 star syntax of builtin generics: *tuple[int, ...] is
+        # Unpack[tuple[int, ...]] (typing.get_type_hints does the same)
+        args = tuple(
+            (
+                typing.Unpack[arg.__origin__[arg.__args__]]  # type: ignore
+                if getattr(arg, "__unpacked__", False)
+                else arg
+            )
+            for arg in args
+        )
+    return args
 
 
 def _get_args_str(
